@@ -92,11 +92,25 @@ fn run(s: &Scn, st: &mut Stats) -> Verdict {
     st.inc(&format!("op.{}", case.op));
     let k = match opcheck::min_k(case) {
         Ok(k) => k,
+        Err(e) if case.op.ends_with(".looser") && e.contains("the derived `nb_bits` bound") => {
+            // the API refuses a declared width other than the derived one (already without witnesses)
+            st.probe("looser_width_refused");
+            return Verdict::Pass;
+        }
         Err(e) => return Verdict::Harness(e),
     };
     let rel = OpRel { case: case.clone() };
     let wit = ops::witness(case);
     let circuit = MidnightCircuit::new(&rel, CValue::known(vec![]), CValue::known(wit.clone()), Some(case.mbl));
+    // the prover-side circuit
+    let m = run_mock(k, &circuit, &[], false);
+    st.events += m.assignments as u64 + 1;
+    let e_circ = if committed { &m.bound_committed } else { &m.bound_plain };
+    if case.op.ends_with(".looser") && matches!(m.verdict, MockVerdict::SynthErr(_)) {
+        // the API refuses a declared width other than the derived one: nothing is exposed
+        st.probe("looser_width_refused");
+        return Verdict::Pass;
+    }
     // the verifier-side formatter
     let e_off = match catch(|| ops_pi::off_circuit(case)) {
         Ok(v) => v,
@@ -104,10 +118,6 @@ fn run(s: &Scn, st: &mut Stats) -> Verdict {
             return Verdict::Violation(Viol::new("EncoderPanic", format!("EncoderPanic:{}", case.op), format!("{}: as_public_input panicked at {} on {:?} {:?}: {}", case.op, p.site(), case.ins, case.bins, p.msg)))
         }
     };
-    // the prover-side circuit
-    let m = run_mock(k, &circuit, &[], false);
-    st.events += m.assignments as u64 + 1;
-    let e_circ = if committed { &m.bound_committed } else { &m.bound_plain };
     if m.verdict != MockVerdict::Accept {
         return Verdict::Violation(Viol::new(
             "ExposureUnsatisfiable",
